@@ -56,6 +56,18 @@ def _normalize_title_quotes(title: str, raw: bool = False) -> str:
     return f'"{escaped}"'
 
 
+def _strip_trailing_blank_lines(text: str, prefix: str) -> str:
+    """
+    Remove trailing newlines and trailing lines that hold only the container prefix
+    (e.g. a lone ">" after the last block of a quote).
+    """
+    blank_line = prefix.rstrip()
+    text = text.rstrip("\n")
+    while blank_line and text.endswith("\n" + blank_line):
+        text = text[: -len(blank_line)].rstrip("\n")
+    return text
+
+
 def _min_fence_length(code_content: str, fence_char: str = "`") -> int:
     """
     Calculate the minimum fence length needed for code content.
@@ -427,8 +439,13 @@ class MarkdownNormalizer(Renderer):
         self._skip_next_blank_line = False
 
         with self.container("> ", "> "):
-            result = self.render_children(element).rstrip("\n")
+            result = _strip_trailing_blank_lines(
+                self.render_children(element), self._second_prefix
+            )
         self._prefix = self._second_prefix
+        # Trailing blank lines of the content (e.g. after a final heading) were just stripped, so
+        # the blank line that follows the quote must not be skipped.
+        self._skip_next_blank_line = False
         # After rendering a quote block, don't suppress the next item break
         # This ensures proper spacing after list items with quote blocks
         self._suppress_item_break = False
@@ -758,9 +775,12 @@ class MarkdownNormalizer(Renderer):
         self._prefix = self._second_prefix
 
         with self.container("> ", "> "):
-            result = self.render_children(element).rstrip("\n")
+            result = _strip_trailing_blank_lines(
+                self.render_children(element), self._second_prefix
+            )
 
         self._prefix = self._second_prefix
+        self._skip_next_blank_line = False  # see render_quote
         # After rendering an alert block, don't suppress the next item break
         self._suppress_item_break = False
         return f"{alert_header}{result}\n"
